@@ -145,7 +145,7 @@ def _shape(ctx):
         stmts = [norm(x) for x in body_wo_doc(dm)]
         ctx.note('keys written by the dumper after user metadata: ver (grid meta), name (column objects): a user tag of '
                  'that name is overwritten (observation, not a violation)')
-        order_ok = any(s.startswith('_meta = dict(map(') for s in stmts) and any("_meta['ver']" in s for s in stmts)
+        order_ok = any('= dict(map(' in s for s in stmts) and any("['ver'] = " in s for s in stmts)
         if order_ok:
             ctx.ob('C06.D3', 'ver is written after the user metadata was collected', True, '%s:%d' % (FD, dm.lineno))
     except (AnalysisError, IndexError) as e:
